@@ -774,7 +774,13 @@ class Module(HasAccessibles):
                 for mobj in modules:
                     # TODO when needed: here we might add a call to a method :meth:`beforeWriteInit`
                     mobj.writeInitParams()
-                    mobj.initialReads()
+                    try:
+                        mobj.initialReads()
+                    except CommunicationFailedError:
+                        raise
+                    except Exception:
+                        # must not end the poll thread (of all the modules handled by it)
+                        mobj.log.error('error in initialReads: %s', formatException())
                 # call all read functions a first time
                 for m in polled_modules:
                     for mobj, rfunc, _ in m.pollInfo.polled_parameters:
